@@ -940,14 +940,21 @@ def ruleTimeDuration(
         DurationUnit.MONTHS,
     ):
         delta = _duration_to_relativedelta(dur)
-        end_ts = t.dt + delta
+        try:
+            end_ts = t.dt + delta
+        except (OverflowError, ValueError):
+            # the end lies beyond what a datetime can represent
+            return None
         # We the end of the interval is a date without particular times
         end = Time(year=end_ts.year, month=end_ts.month, day=end_ts.day)
         return Interval(t_from=t, t_to=end)
 
     if dur.unit in (DurationUnit.HOURS, DurationUnit.MINUTES):
         delta = _duration_to_relativedelta(dur)
-        end_ts = t.dt + delta
+        try:
+            end_ts = t.dt + delta
+        except (OverflowError, ValueError):
+            return None
         end = Time(
             year=end_ts.year,
             month=end_ts.month,
